@@ -42,7 +42,13 @@ def main():
     for p in props:
         subprocess.run([os.path.join(VERIF, "check"), p], env=dict(os.environ, VERIF_APICOV="1", VERIF_NO_EVIDENCE="1"), cwd=VERIF, capture_output=True, text=True)
     entered = {}
-    for f in glob.glob(os.path.join(cov_dir, "*.json")):
+    options = {}
+    for f in glob.glob(os.path.join(cov_dir, "opt-*.json")):
+        for key, rec in json.load(open(f)).items():
+            o = options.setdefault(key, {})
+            for n, used in rec.items():
+                o[n] = o.get(n, False) or used
+    for f in glob.glob(os.path.join(cov_dir, "C*.json")):
         prop = os.path.basename(f).split("-")[0]
         for item in json.load(open(f)):
             rel, qual, _ = item.rsplit(":", 2)
@@ -58,6 +64,30 @@ def main():
     for k in pub:
         print("  ", k)
     print("private / dunder-free helpers never entered:", len(never) - len(pub))
+    unused = sorted("%s(%s=)" % (k, n) for k, rec in options.items() for n, used in rec.items() if not used and not n.startswith("**")
+                    and not any(part.startswith("_") and not part.startswith("__init__") for part in k.split(":")[1].split(".")))
+    print("parameters with a default that no workload ever sets to another value (%d):" % len(unused))
+    for u in unused:
+        print("  ", u)
+    # keyword options read through **kwargs (kwargs.get('name') / kw.get / pop): which of them did no workload ever pass?
+    import re
+    seen_by_file = {}
+    for k, rec in options.items():
+        seen_by_file.setdefault(k.split(":")[0], set()).update(n[2:] for n in rec if n.startswith("**"))
+    unread = []
+    for path in glob.glob(os.path.join(TREE, "ahrs", "**", "*.py"), recursive=True):
+        rel = os.path.relpath(path, TREE)
+        names = set(re.findall(r"""(?:kwargs|kw)\.(?:get|pop)\(\s*['"](\w+)['"]""", open(path, encoding="utf-8").read()))
+        for n in sorted(names - seen_by_file.get(rel, set())):
+            unread.append("%s: %s=" % (rel, n))
+    print("keyword options read from **kwargs that no workload ever passes (%d):" % len(unread))
+    for u in unread:
+        print("  ", u)
+    d_ = json.load(open(os.path.join(VERIF, "apicov.json")))
+    d_["kwargs_options_never_passed"] = unread
+    d_["parameters_never_set"] = unused
+    d_["keyword_options_seen"] = {k: sorted(n[2:] for n in rec if n.startswith("**")) for k, rec in options.items() if any(n.startswith("**") for n in rec)}
+    json.dump(d_, open(os.path.join(VERIF, "apicov.json"), "w"), indent=1)
 
 
 if __name__ == "__main__":
